@@ -19,8 +19,13 @@ one resolution only — `first = release` is order B (the choice letter tells wh
 `H` = r ran its cancellation path having been granted and gave the accounts back, `h` = r was still queued),
 `first = cancel` is order A (`K`).
 
+`arrive-during-release r b` — the release of `b` issued while `r` is inside `Lock` (the harness parks `r` in one of the log calls
+`Lock` makes and starts the release): the atomic sections of the model leave one order only, `arrive r; release b` (what is
+between the failed `tryLock` and `intents.Append` is under the mutex), so it is the composite `arrive` with `release b` held.
+
 input : {"variant":"fixed"|"orig", "ops":[{"op":"arrive","r":n,"read":[..],"write":[..],"hold":[{"op":"release","r":b}|{"op":"cancel","r":n}]}
-         | {"op":"release","r":n} | {"op":"cancel","r":n} | {"op":"race","r":n,"b":m} | {"op":"handover","r":n,"b":m,"first":"release"|"cancel"} | {"op":"drain"}]}
+         | {"op":"release","r":n} | {"op":"cancel","r":n} | {"op":"race","r":n,"b":m} | {"op":"handover","r":n,"b":m,"first":"release"|"cancel"}
+         | {"op":"arrive-during-release","r":n,"read":[..],"write":[..],"b":m} | {"op":"drain"}]}
 output: {"paths":[{"choices":["gcA…",…],"steps":[{"res":…, "nd":…, "ret":{"<id>":"ok"|"err"}, "sub":[{"rel":id,"ret":{…}}…] (drain only),
           "waiting":[ids], "q":[[read,write]…], "rl":{acct:count}, "wl":[acct…]}]}]} -/
 namespace Driver.LockD
@@ -199,6 +204,11 @@ def parseOp (j : Json) : Except String HOp := do
   | "cancel" => pure (.cancel (← getNat j "r"))
   | "race" => pure (.race (← getNat j "r") (← getNat j "b"))
   | "handover" => pure (.handover (← getNat j "r") (← getNat j "b") ((getStr j "first").toOption.getD "release" != "cancel"))
+  | "arrive-during-release" =>
+    -- the release of `b` is issued while `r` is inside `Lock`.  Every step of the arrival path of a request that has to wait
+    -- is made under the locker's mutex, so the release can only take effect once `r` is queued: arrive r; release b; settle —
+    -- the composite `arrive` with the held operation `release b`.  (For a request served at once the order does not matter.)
+    pure (.arrive ⟨← getNat j "r", ← strList j "read", ← strList j "write"⟩ [(true, ← getNat j "b")])
   | "drain" => pure .drain
   | _ => throw s!"unknown op {op}"
 
